@@ -11,12 +11,10 @@ import (
 	"github.com/go-git/go-git/v6/internal/simhook"
 	"hash"
 	"io"
-	"maps"
 	"os"
 	"path"
 	"path/filepath"
 	"runtime"
-	"slices"
 	"sort"
 	"strings"
 	"sync"
@@ -255,7 +253,8 @@ func (d *DotGit) Close() error {
 	d.packHandlesMu.Unlock()
 
 	var phErrs []error
-	for _, h := range handles {
+	for _, k := range simhook.HashKeys(handles) {
+		h := handles[k]
 		if err := h.Close(); err != nil {
 			phErrs = append(phErrs, err)
 		}
@@ -679,7 +678,10 @@ func (d *DotGit) packHandle(hash plumbing.Hash) (*packhandle.PackHandle, error) 
 func (d *DotGit) walkPackHandles(fn func(*packhandle.PackHandle) error) error {
 	simhook.BeforeLock(&d.packHandlesMu)
 	d.packHandlesMu.Lock()
-	handles := slices.Collect(maps.Values(d.packHandles))
+	handles := make([]*packhandle.PackHandle, 0, len(d.packHandles))
+	for _, k := range simhook.HashKeys(d.packHandles) {
+		handles = append(handles, d.packHandles[k])
+	}
 	d.packHandlesMu.Unlock()
 
 	var errs []error
@@ -1021,7 +1023,8 @@ func (d *DotGit) cleanPackList() error {
 	d.packHandlesMu.Unlock()
 
 	var errs []error
-	for _, h := range handles {
+	for _, k := range simhook.HashKeys(handles) {
+		h := handles[k]
 		if err := h.Close(); err != nil {
 			errs = append(errs, err)
 		}
